@@ -125,6 +125,10 @@ func checkC15(p *Program, r *Reporter) {
 			case pers[f]:
 				r.Discharge("E6-PERSIST", f, "field", "-", "persisted by encoding/json (exported, tag not \"-\"); read in "+where)
 			case rederived[f]:
+				if bad := guardedByUnsetPersisted(p, rederive, f, pers); bad != "" {
+					r.Violate("E6-PERSIST", f, "field", "-", "not persisted, and on the cache-load path it is set only under "+bad+", i.e. only while a persisted field is still unset: a representation decoded from the metadata file has that field set, so the value is never derived for it (read in "+where+")", nil)
+					continue
+				}
 				r.Discharge("E6-PERSIST", f, "field", "-", "not persisted, stored by addRegExpAndInit or its callees on the cache-load path; read in "+where)
 			default:
 				r.Violate("E6-PERSIST", f, "field", "-", "read while serving ("+where+") but neither persisted in the metadata file nor set by the cache-load path: a cache-loading server serves with an empty value where a scanning server has the real one", nil)
@@ -152,6 +156,84 @@ func checkC15(p *Program, r *Reporter) {
 	}
 	if nLoad == 0 {
 		r.Violate("E5-WRITEMODE", shortFn(lfj), "call:loadFromJSON", p.pos(lfj.Pos()), "the metadata file is never read", nil)
+	}
+	// the scan fills a fresh representation: after a cache file was found (ok flag true) the same object is
+	// never handed to the segment scan, whatever the decode error was (json.Unmarshal leaves the fields it
+	// managed to decode, so a fall-back scan would append to a half-filled segment table)
+	r.Rule("E5-CLEANSCAN", "segments are scanned into the representation only when no metadata file was found for it", 1)
+	for _, s := range callsTo(p, lfj) {
+		call, ok := s.(*ssa.Call)
+		if !ok || call.Referrers() == nil {
+			continue
+		}
+		var okFlag ssa.Value
+		for _, ref := range *call.Referrers() {
+			if ex, isEx := ref.(*ssa.Extract); isEx && ex.Index == 0 {
+				okFlag = ex
+			}
+		}
+		fn := s.Parent()
+		// blocks reachable from the call without taking the 'not found' edge of a test of the flag
+		reach := map[*ssa.BasicBlock]bool{}
+		work := []*ssa.BasicBlock{s.Block()}
+		first := true
+		for len(work) > 0 {
+			x := work[0]
+			work = work[1:]
+			if !first {
+				if reach[x] {
+					continue
+				}
+				reach[x] = true
+			}
+			first = false
+			skip := -1
+			if ifi, isIf := x.Instrs[len(x.Instrs)-1].(*ssa.If); isIf && okFlag != nil {
+				v, neg := ifi.Cond, false
+				if u, isU := v.(*ssa.UnOp); isU && u.Op == token.NOT {
+					v, neg = u.X, true
+				}
+				if v == okFlag {
+					skip = 1 // the false edge: no file found
+					if neg {
+						skip = 0
+					}
+				}
+			}
+			for i, succ := range x.Succs {
+				if i != skip {
+					work = append(work, succ)
+				}
+			}
+		}
+		for _, b := range fn.Blocks {
+			if !reach[b] {
+				continue
+			}
+			for _, in := range b.Instrs {
+				st, isSt := in.(*ssa.Store)
+				if !isSt {
+					continue
+				}
+				if f, isF := fieldOfAddr(st.Addr); !isF || f != "app.RepData.Segments" {
+					continue
+				}
+				r.Violate("E5-CLEANSCAN", shortFn(fn), "store:RepData.Segments", p.pos(st.Pos()),
+					"the segment scan appends to a representation that the metadata decoder may already have filled in part: it can be reached from the cache read without passing the 'no file found' edge (a damaged file gives a doubled or mixed segment table instead of leaving the asset out)", nil)
+			}
+		}
+		nScan := 0
+		for _, b := range fn.Blocks {
+			for _, in := range b.Instrs {
+				if st, isSt := in.(*ssa.Store); isSt {
+					if f, isF := fieldOfAddr(st.Addr); isF && f == "app.RepData.Segments" && !reach[b] {
+						nScan++
+					}
+				}
+			}
+		}
+		r.Decide(nScan > 0 && okFlag != nil, "E5-CLEANSCAN", shortFn(fn), "scan-behind-not-found", p.pos(s.Pos()), "every scan store lies behind the 'no file found' edge of the cache read",
+			"no segment scan behind the found-flag of the cache read was recognised", nil)
 	}
 	// (b) publication after validation
 	r.Rule("E5-PUBLISH", "representation and MPD registered only after every load-time check; failed consolidation deletes the asset", 5)
@@ -439,4 +521,56 @@ func valueReadsField(p *Program, v ssa.Value, field string) bool {
 		}
 	})
 	return hit
+}
+
+// guardedByUnsetPersisted: every store to field f in the functions reachable from the re-derivation step
+// is control-dependent on a test that some persisted field is zero/nil (taken on the unset side). Returns a
+// description of such a test, or "" if at least one store is free of them.
+func guardedByUnsetPersisted(p *Program, rederive *ssa.Function, f string, pers map[string]bool) string {
+	bad := ""
+	sites := 0
+	for fn := range p.reachableFrom(rederive) {
+		for _, b := range fn.Blocks {
+			for _, in := range b.Instrs {
+				st, ok := in.(*ssa.Store)
+				if !ok {
+					continue
+				}
+				if g, ok := fieldOfAddr(st.Addr); !ok || g != f {
+					continue
+				}
+				sites++
+				why := ""
+				for _, cd := range effectiveCDeps(b, true) {
+					bo, isBin := cd.V.(*ssa.BinOp)
+					if !isBin || (bo.Op != token.EQL && bo.Op != token.NEQ) {
+						continue
+					}
+					g, isLoad := loadedField(bo.X)
+					if !isLoad || !pers[strings.TrimSuffix(g, "*")] {
+						continue
+					}
+					zero := isNilConst(bo.Y) || isZeroConst(bo.Y)
+					if s, isStr := constString(bo.Y); isStr && s == "" {
+						zero = true
+					}
+					if !zero {
+						continue
+					}
+					unsetSide := (bo.Op == token.EQL && cd.Pos) || (bo.Op == token.NEQ && !cd.Pos)
+					if unsetSide {
+						why = "the test '" + g + " is unset' at " + p.pos(bo.Pos())
+					}
+				}
+				if why == "" {
+					return ""
+				}
+				bad = why
+			}
+		}
+	}
+	if sites == 0 {
+		return ""
+	}
+	return bad
 }
